@@ -3,6 +3,7 @@ package props
 import (
 	"bytes"
 	"fmt"
+	"io"
 	"math/rand"
 	"net"
 	"os"
@@ -64,6 +65,10 @@ func makeFSTree(r *rand.Rand, dir string, depth int, st *fsStats, budget *int) {
 				content = gen.Content(r, "rand", 262144+r.Intn(1000))
 			case 2:
 				content = gen.Content(r, "zero", 1+r.Intn(5000))
+				if r.Intn(3) == 0 {
+					// a sparse-looking file: whole chunks of zeros and a zero tail that ends off the chunk grid
+					content = gen.Content(r, "zero", 262144*(1+r.Intn(2))+1+r.Intn(100000))
+				}
 			default:
 				content = gen.Content(r, "rand", 1+r.Intn(2000))
 			}
@@ -647,6 +652,29 @@ func TestC18(t *testing.T) {
 			c.Count("pseudo_symlink_roots", 1)
 			compareFS(c, pst, pst.LinkSystem(false), linkCid(l), pl)
 			c.Sig("root|pseudo-symlink|statsize="+fmt.Sprint(fi.Size()), true)
+		}
+		// files that lstat calls regular but whose read fails: the only right result is an error
+		for _, uf := range []string{"/proc/self/mem", "/proc/self/clear_refs"} {
+			fi, err := os.Lstat(uf)
+			if err != nil || !fi.Mode().IsRegular() {
+				continue
+			}
+			if fp, err := os.Open(uf); err == nil {
+				_, rerr := io.ReadAll(fp)
+				fp.Close()
+				if rerr == nil {
+					continue // readable here
+				}
+			} else {
+				continue
+			}
+			ust := store.New()
+			l, _, err := builder.BuildUnixFSRecursive(uf, ust.LinkSystem(false))
+			c.Count("unreadable_file_roots", 1)
+			if err == nil {
+				c.Violation("C18|unreadable-accepted", "import root %q is a regular file whose read fails; the import returned %v and no error", uf, l)
+			}
+			c.Sig("root|unreadable-file", true)
 		}
 		st := store.New()
 		if _, _, err := builder.BuildUnixFSRecursive(filepath.Join(dir, "fifo"), st.LinkSystem(false)); err == nil {
